@@ -17,6 +17,12 @@ fn go<T: Scalar, const D: usize>(h: &C08, out: &mut Outcome<T>) {
     let g = h.entry.ograph();
     let kin = rat_kin::<T>(&g, D);
     let run = run_sample::<T, D>(&h.entry, &h.routing, &kin, &settings(true, true, None), None, out);
+    // the rescaled Feynman parameters are abstracted to arbitrary positive reals on every path,
+    // error paths included (so that their infeasibility is decided once, independently of the sector)
+    let x = run.logged("momtrop_feynman_parameter").expect("feature log: momtrop_feynman_parameter").clone();
+    for (e, xe) in x.iter().enumerate() {
+        out.cut(*xe, format!("X{}", e), &["(> {} 0.0)"]);
+    }
     let res = match &run.res {
         Ok(r) => r,
         Err(e) => {
@@ -25,11 +31,6 @@ fn go<T: Scalar, const D: usize>(h: &C08, out: &mut Outcome<T>) {
         }
     };
     let md = res.metadata.as_ref().expect("metadata requested");
-    let x = run.logged("momtrop_feynman_parameter").expect("feature log: momtrop_feynman_parameter").clone();
-    // abstraction: the rescaled Feynman parameters are arbitrary positive numbers
-    for (e, xe) in x.iter().enumerate() {
-        out.cut(*xe, format!("X{}", e), &["(> {} 0.0)"]);
-    }
     let l = g.num_loops();
     let zero = T::rat(0, 1);
     for i in 0..l {
